@@ -3,12 +3,12 @@
 from __future__ import annotations
 
 import ast
-import re
+import typing as t
 
 from .. import astq
 from ..cfg import cfg_of
-from ..effects import INF, MODEL_DOC, Effects, Flow, Site, const_int, const_text
-from ..fold import Folder, sre_c, width
+from ..effects import INF, MODEL_DOC, PS, ZERO, Effects, Flow, Site, codec_call, const_int, const_text
+from ..fold import Folder
 from ..loader import AnalysisError, ClassInfo, FuncInfo, dotted, norm, walk_no_nested
 from ..report import Ctx
 from .c07_reviewed import A, p_form_parser_silent, review
@@ -19,7 +19,7 @@ LEVEL_TEXT = (
     "header_property and environ_property of sansio.Request and wrappers.Request. (R7.1) Over the resolved call graph from "
     "these entry points (incl. self.<property>.<method>() on the class the property's getter constructs and the "
     "io.RawIOBase read -> readall/readinto dispatch), every explicit raise and every modelled failing operation of "
-    "builtins/stdlib (int/float of a str, strict decode/encode, base64, urlsplit/.port, parsedate_to_datetime, timedelta, "
+    "builtins/stdlib (int/float of a str, strict decode/encode in method or constructor spelling, base64, urlsplit/.port, parsedate_to_datetime, timedelta, "
     "next, index, split-unpack, constant index, Optional match, assert, Enum(value), to_bytes, and read(n)/bytearray(n)/"
     "bytes(n) whose size provably flows unbounded from a text->int conversion of client text) either raises a werkzeug "
     "HTTPException, or is covered by an enclosing handler on every call path (real exception lattice), or by a guard idiom, "
@@ -31,11 +31,21 @@ LEVEL_TEXT = (
     "(input-model latin-1 text, application flag, abstract method, application's own value, Accept pair, fallback search, "
     "regex-matched number, octal escape, ASCII bytes, range constructor, validated constructor) re-establishes its premise "
     "on every run on the code as it is shaped now; a premise anchor of an unknown shape is ANALYSIS-ERROR, a false premise "
-    "a violation. A new risky site is reported until reviewed (fail-closed). (R7.2) every while loop reachable from an "
-    "entry point passes, on every path back to its head, a statement that strictly advances (positive increment, slice "
-    "with a lower bound >= 1, match.end() of a pattern that cannot match empty there) or a reviewed progress maker "
-    "identified by what it calls (MultipartDecoder.next_event with a NEED_DATA exit; a stream read with an exit on the "
-    "empty read). (R7.3) the lenient decoders named by the property keep their fallbacks. Not decided: operations outside "
+    "a violation. The range-constructor premise is decided per element: every place that can put an element into the list "
+    "handed to the validating constructor (literal, comprehension, append / insert / extend / += / item assignment, alias, "
+    "copy, a helper that returns or fills the list) is found by role; for each, all acyclic paths to it are enumerated with "
+    "path-wise must-facts (nullness, int-ness, difference bounds x - y <= c closed under transitivity, tuple components, "
+    "boolean flags, summaries of package helpers related to their arguments, loop heads forgetting what the loop assigns "
+    "except monotone changes and inductive bounds), and the constructor's validation loop is replayed under those facts: "
+    "the raise must be unreachable. A new risky site is reported until reviewed (fail-closed). (R7.2) every while loop "
+    "reachable from an "
+    "entry point makes progress on every path through its body, decided on the same path-wise facts: back at the head "
+    "an assigned int has strictly grown (or fallen), or an assigned text is strictly shorter (slice with a lower bound "
+    ">= 1, partition / split / removeprefix that removed a separator or a non-empty match, match.end() / span() of a pattern "
+    "that cannot match empty at that position), or a reviewed progress maker identified by what it calls was asked for more "
+    "(MultipartDecoder.next_event; a read from the request stream) - and between two requests to such a maker the loop is "
+    "left when it is exhausted (the event is NEED_DATA; the read is "
+    "empty). (R7.3) the lenient decoders named by the property keep their fallbacks. Not decided: operations outside "
     "the model (variable-key mapping lookups, attribute errors other than Optional regex matches, sizes whose origin is "
     "not provably a parsed client integer), termination of library regex engines, resource exhaustion in general."
 )
@@ -49,7 +59,8 @@ ASSUMPTIONS = [
     "input model: client-controlled values are latin-1 str without control characters; server-controlled environ keys (wsgi.*, SERVER_NAME/PORT, SCRIPT_NAME, REQUEST_METHOD) are present and well-formed",
     "application-supplied callables (type= converters, cls= factories, user_agent_class) are outside the claim",
     "RecursionError / MemoryError are out of model, except the size kind above",
-    "containers are followed by their local name: aliasing of a list / dict under a second name inside one function is not tracked",
+    "containers are followed by their local name: aliasing of a list / dict under a second name inside one function is not tracked (the list handed to the range constructor is followed through plain aliases, copies and helpers)",
+    "R7.2: a cursor that strictly moves in one direction and a text sliced from a lower bound >= 1 count as progress (termination then needs the loop's own bound test, which is not checked)",
 ]
 
 PARSERS = [
@@ -119,10 +130,10 @@ def run(ctx: Ctx) -> None:
                 registered.add(astq.const_str(c.args[0]))
     eff = Effects(repo, registered)
     folder = Folder(repo)
-    ok_silent, guard_txt, why_silent = p_form_parser_silent(ctx, folder)
+    ok_silent, dead_raises, why_silent = p_form_parser_silent(ctx, folder)
     ctx.ob("R7.1", "form parsing on the request path runs in silent mode (its ValueError handler does not re-raise)", ok_silent, why_silent, repo.func("formparser.FormDataParser.parse"), None, "form parser silent mode")
-    if ok_silent and guard_txt:
-        eff.dead_reraise_guards.add(guard_txt)
+    if ok_silent:
+        eff.dead_reraises |= {id(x) for x in dead_raises}
     entries = entry_points(ctx, eff)
     ctx.floor("R7.1", "entry points", len(entries), 68)
     roots = []
@@ -205,7 +216,7 @@ def run(ctx: Ctx) -> None:
         "unresolved_calls": {k: v for k, v in eff.unresolved.items() if v and k in eff.reach},
     }
     _r72(an)
-    _r73(ctx, registered)
+    _r73(ctx, eff, folder, registered)
 
 
 # ---------------------------------------------------------------------
@@ -232,6 +243,12 @@ def _guard_idiom(an: A, s: Site, e: str) -> str | None:
         if sep and k == 2 and mx == 1:
             if sep in flow.contained(fi, call.func.value, node):
                 return f"`{sep!r} in {norm(call.func.value)}` is established on every path to the unpacking (dominating test, or at every call site for a parameter)"
+        return None
+    if s.kind == "index" and isinstance(s.node, ast.Call) and len(s.node.args) == 1 and not s.node.keywords:
+        c = const_text(s.node.args[0])
+        recv = s.node.func.value  # type: ignore[attr-defined]
+        if c and c in flow.contained(fi, recv, node):
+            return f"`{c!r} in {norm(recv)}` is established on every path to the search (dominating test in any spelling, or at every call site for a parameter): it cannot fail"
         return None
     if s.kind == "const-index":
         sub = s.node
@@ -266,180 +283,113 @@ def _r72(an: A) -> None:
     ctx.floor("R7.2", "while loops reachable from entry points", n, 3)
 
 
-def _leaves_loop(cfg, tn, label: str, body_ids: set[int]) -> bool:
-    succ = cfg.succ(tn, label)
-    return bool(succ) and all(x.ast is None or id(x.ast) not in body_ids or isinstance(x.ast, ast.Break) for x in succ)
+def _maker_kind(an: A, f: FuncInfo, c: ast.Call) -> str | None:
+    """reviewed progress makers, identified by what is called: MultipartDecoder.next_event / a read from the request stream."""
+    if any(g.fq == NEXT_EVENT for g in an.flow.resolve_callee(f, c)):
+        return "event"
+    fn = c.func
+    if (isinstance(fn, ast.Attribute) and fn.attr == "read") or (isinstance(fn, ast.Name) and fn.id in f.params and _bound_to_read(an, f, fn.id)):
+        return "read"
+    return None
 
 
-def _every_cycle_passes(cfg, p, through, head, body_ids: set[int]) -> bool:
-    """inside the loop, p cannot be reached again from its successors without passing `through`."""
-    if p is through:
-        return True
-    outside = [n for n in cfg.nodes if n is not head and (n.ast is None or id(n.ast) not in body_ids)]
-    starts = [x for x, _ in p.succs if x is not through and x not in outside]
-    if not starts:
-        return True
-    return p.id not in cfg.reach(starts, avoid_nodes=[through] + outside)
+def _not_need_data(an: A, f: FuncInfo, st: PS, var: str) -> str | None:
+    """the path has seen `isinstance(<var>, <types incl. NeedData>)` false (and var was not rebound since)."""
+    li = f.module.local_imports(f.node)
+    for key, (truth, names) in st.gen.items():
+        if truth or var not in names:
+            continue
+        try:
+            t_ = ast.parse(key, mode="eval").body
+        except SyntaxError:
+            continue
+        if not (isinstance(t_, ast.Call) and dotted(t_.func) == "isinstance" and len(t_.args) == 2 and isinstance(t_.args[0], ast.Name) and t_.args[0].id == var):
+            continue
+        types = t_.args[1].elts if isinstance(t_.args[1], ast.Tuple) else [t_.args[1]]
+        if any((an.repo.resolve(f.module, dotted(x) or "?", li) or "").endswith(".NeedData") for x in types):
+            return key
+    return None
 
 
 def _progress(an: A, f: FuncInfo, w: ast.While) -> tuple[bool, str]:
-    """every path through the body either leaves the loop or passes a statement that strictly advances."""
-    ctx, flow = an.ctx, an.flow
+    """every iteration either strictly advances a measure (an int cursor that only moves one way, a text that gets
+    shorter) or asks a reviewed progress maker for more - and between two such requests the loop is left when the maker
+    is exhausted.  Decided on the facts of every path through the body (wzsa/effects.py PathSim), not on statement shapes."""
+    sim = an.sim
+    sim.steps = 0
     cfg = cfg_of(f)
-    heads = cfg.by_ast.get(id(w)) or []
+    heads = [h for h in cfg.by_ast.get(id(w)) or [] if h.kind == "join"]
     if not heads:
         return False, "no CFG node"
     head = heads[0]
-    body_ids = {id(x) for st in w.body for x in ast.walk(st)} | {id(x) for x in ast.walk(w.test)}
-    rd = flow.rd(f)
-    prog_nodes = []
-    facts = []
+    region = sim.loop_region(f, head)
+    makers: dict[int, tuple[str, ast.Call, t.Any]] = {}
     for n_ in cfg.nodes:
-        a = n_.ast
-        if a is None or id(a) not in body_ids or n_ is head:
+        if n_.id not in region or n_.ast is None or n_.kind not in ("stmt", "test"):
             continue
-        if n_.kind not in ("stmt", "test"):
-            continue
-        if isinstance(a, ast.AugAssign) and isinstance(a.op, ast.Add) and isinstance(a.target, ast.Name):
-            lb = flow.int_lb(f, a.value, n_)
-            if lb is not None and lb >= 1:
-                prog_nodes.append(n_)
-                facts.append(norm(a))
-                continue
-        if isinstance(a, ast.Assign) and len(a.targets) == 1 and _slice_of(a.value) is not None and norm(a.targets[0]) == norm(_slice_of(a.value).value) and _slice_of(a.value).slice.lower is not None and _slice_of(a.value).slice.step is None:
-            lo = _slice_of(a.value).slice.lower
-            good = None
-            if isinstance(lo, ast.Call) and isinstance(lo.func, ast.Attribute) and lo.func.attr == "end" and not lo.args:
-                rx = flow.regex_of_match(f, lo.func.value, n_)
-                if rx is not None and width(rx)[0] >= 1 and _match_at_start(flow, f, lo.func.value, n_, a.targets[0]):
-                    good = f"{norm(a)} (pattern min width >= 1)"
-            else:
-                lb = flow.int_lb(f, lo, n_)
-                if lb is not None and lb >= 1:
-                    good = f"{norm(a)} (lower bound >= {lb if lb < INF else 1})"
-            if good:
-                prog_nodes.append(n_)
-                facts.append(good)
-                continue
-        if isinstance(a, ast.Assign) and len(a.targets) == 1 and isinstance(a.targets[0], ast.Name) and isinstance(a.value, ast.Call) and isinstance(a.value.func, ast.Attribute) and a.value.func.attr == "end" and not a.value.args:
-            how = _end_progress(an, f, n_, a.targets[0].id, a.value.func.value)
-            if how:
-                prog_nodes.append(n_)
-                facts.append(f"{norm(a)} ({how})")
-                continue
-        # reviewed progress makers, identified by what is called
-        for c in [x for x in ([a] if isinstance(a, ast.Call) else []) + list(walk_no_nested(a)) if isinstance(x, ast.Call)]:
-            how = _event_progress(an, f, w, head, body_ids, n_, c) or _stream_read_progress(an, f, w, head, body_ids, n_, c)
-            if how:
-                prog_nodes.append(n_)
-                facts.append(how)
-                break
-    starts = [s for s, l in head.succs if s not in prog_nodes]
-    r = cfg.reach(starts, avoid_nodes=prog_nodes + [head]) if starts else set()
-    stuck = [p for p, _ in head.preds if p.ast is not None and id(p.ast) in body_ids and p.id in r and p not in prog_nodes]
-    if stuck:
-        return False, f"an iteration can return to the loop head without progress (e.g. after `{stuck[0].text()[:50]}`); progress statements: {facts}"
-    return True, f"every iteration passes one of: {facts}" if facts else "loop body always leaves the loop"
-
-
-def _match_at_start(flow: Flow, f: FuncInfo, m: ast.AST, node, target: ast.AST) -> bool:
-    """the match object comes from R.match(<target>) / R.search(<target>): its end() counts from the start of target."""
-    if not isinstance(m, ast.Name):
-        return False
-    for d in flow.rd(f).reaching(node, m.id):
-        v = d.value
-        if not (d.kind in ("assign", "walrus") and isinstance(v, ast.Call) and len(v.args) == 1 and norm(v.args[0]) == norm(target)):
-            return False
-    return True
-
-
-def _empty_needs_end(seq) -> bool:
-    """the sequence can match the empty string only by passing an end-of-string assertion."""
-    for op, av in seq:
-        if op is sre_c.AT:
-            if av in (sre_c.AT_END, sre_c.AT_END_STRING):
-                return True
-            continue
-        if op in (sre_c.MAX_REPEAT, sre_c.MIN_REPEAT):
-            if av[0] >= 1 and (av[2].getwidth()[0] >= 1 or _empty_needs_end(av[2])):
-                return True
-            continue
-        if op is sre_c.SUBPATTERN:
-            if av[3].getwidth()[0] >= 1 or _empty_needs_end(av[3]):
-                return True
-            continue
-        if op is sre_c.BRANCH:
-            if all(b.getwidth()[0] >= 1 or _empty_needs_end(b) for b in av[1]):
-                return True
-            continue
-        if op in (sre_c.ASSERT, sre_c.ASSERT_NOT, sre_c.GROUPREF, sre_c.GROUPREF_EXISTS):
-            continue
-        return True  # literal / class / any: width >= 1
-    return False
-
-
-def _end_progress(an: A, f: FuncInfo, node, pos: str, m: ast.AST) -> str | None:
-    """`pos = M.end()` where M = R.match(S, pos): strictly greater than pos when R cannot match empty there."""
-    flow = an.flow
-    if not isinstance(m, ast.Name):
-        return None
-    subj = None
-    for d in flow.rd(f).reaching(node, m.id):
-        v = d.value
-        if not (d.kind in ("assign", "walrus") and isinstance(v, ast.Call) and isinstance(v.func, ast.Attribute) and v.func.attr in ("match", "search") and len(v.args) == 2 and isinstance(v.args[1], ast.Name) and v.args[1].id == pos):
-            return None
-        if subj is not None and subj != norm(v.args[0]):
-            return None
-        subj = norm(v.args[0])
-    rx = flow.regex_of_match(f, m, node)
-    if rx is None or subj is None:
-        return None
-    if width(rx)[0] >= 1:
-        return "pattern min width >= 1"
-    if rx.flags & re.M:
-        return None
+        for c in [x for x in [n_.ast, *walk_no_nested(n_.ast)] if isinstance(x, ast.Call)]:
+            k = _maker_kind(an, f, c)
+            if k is not None and cfg.node_of(c) is n_:
+                makers[id(c)] = (k, c, n_)
+    sim.call_tag = lambda fi, c: (f"{makers[id(c)][0]}:{id(c)}" if id(c) in makers else None)
     try:
-        tail = _empty_needs_end(rx.parsed())
-    except Exception:
-        return None
-    if not tail:
-        return None
-    # an empty match needs `$` at pos, i.e. pos == len(S): excluded by the loop test pos < len(S)
-    at = flow.holds(f, node, lambda at: at.op == "lt" and at.truth and norm(at.a) == pos and norm(at.b) == f"len({subj})")
-    if at is None:
-        return None
-    return f"an empty match of {rx.pattern!r} needs `$` at {pos} (no re.M; no newline in the input model), excluded by `{norm(at.test.ast)}`"
-
-
-def _event_progress(an: A, f: FuncInfo, w: ast.While, head, body_ids, node, call: ast.Call) -> str | None:
-    """the loop that drains MultipartDecoder.next_event(): every cycle asks for a new event and leaves on NEED_DATA."""
-    flow = an.flow
-    gs = flow.resolve_callee(f, call)
-    if not any(g.fq == NEXT_EVENT for g in gs):
-        return None
-    cfg = cfg_of(f)
-    li = f.module.local_imports(f.node)
-    for tn in cfg.nodes:
-        if tn.kind != "test" or id(tn.ast) not in body_ids:
-            continue
-        t_ = tn.ast
-        if not (isinstance(t_, ast.Call) and dotted(t_.func) == "isinstance" and len(t_.args) == 2 and isinstance(t_.args[0], ast.Name)):
-            continue
-        types = t_.args[1].elts if isinstance(t_.args[1], ast.Tuple) else [t_.args[1]]
-        if not any((an.repo.resolve(f.module, dotted(x) or "?", li) or "").endswith(".NeedData") for x in types):
-            continue
-        if not _leaves_loop(cfg, tn, "T", body_ids):
-            continue
-        defs = flow.rd(f).reaching(tn, t_.args[0].id)
-        if not defs or not all(d.kind in ("assign", "walrus") and isinstance(d.value, ast.Call) and any(g.fq == NEXT_EVENT for g in flow.resolve_callee(f, d.value)) for d in defs):
-            continue
-        if not _every_cycle_passes(cfg, node, tn, head, body_ids):
-            continue
-        ok, why = _next_event_premise(an)
-        if not ok:
-            return None
-        return f"`{norm(call)}` (reviewed: every event other than NEED_DATA comes with a buffer deletion or a state change, so a bounded buffer yields finitely many events; the loop leaves on `{norm(t_)}`) [{why}]"
-    return None
+        pre: dict[tuple, PS] = {}
+        sim.walk(f, [head], lambda n, st: pre.setdefault(st.key(), st), stop_at_goal=True)
+        assigned = sorted(sim.loop_assigned(f).get(head.id, ()))
+        how: dict[str, int] = {}
+        ncyc = 0
+        for P in pre.values():
+            for A_ in sim.cycles(f, head, P):
+                ncyc += 1
+                got = None
+                for v in assigned:
+                    h = v + "@h"
+                    if A_.entails(h, v, 0, True):
+                        got = f"`{v}` grows"
+                    elif A_.entails(v, h, 0, True):
+                        got = f"`{v}` falls"
+                    elif f"len({v})" in A_.deps and f"len({h})" in A_.deps and A_.entails(f"len({v})", f"len({h})", 0, True):
+                        got = f"`{v}` gets shorter"
+                    if got:
+                        break
+                if got is None:
+                    hit = [tg for tg in A_.tags if int(tg.split(":")[1]) in makers]
+                    if hit:
+                        got = f"asks `{norm(makers[int(hit[0].split(':')[1])][1])[:40]}` for more"
+                if got is None:
+                    known = "; ".join(f"{v}: {A_.describe([v, v + '@h'])}" for v in assigned[:6])
+                    return False, f"an iteration can return to the loop head without progress: no assigned name ({', '.join(assigned) or 'none'}) is known to have moved and no progress maker was asked [{known[:400]}]"
+                how[got] = how.get(got, 0) + 1
+        facts = [f"{k} ({v} path(s))" for k, v in sorted(how.items())]
+        # between two requests to a progress maker the loop is left when the maker is exhausted
+        reviewed = []
+        for cid, (kind, call, node) in makers.items():
+            tag = f"{kind}:{cid}"
+            arr: list[PS] = []
+            sim.walk(f, [m[2] for m in makers.values()], lambda n, st: arr.append(st), init=PS(), starts=[node], within=region, no_havoc=[head.id], stop_at_goal=True, first_free=True)
+            why = None
+            for A_ in arr:
+                holders = [v for v, tg in A_.org.items() if tg == tag and not v.startswith("$")]
+                if kind == "read":
+                    okv = [v for v in holders if A_.truth.get(v) is True or (f"len({v})" in A_.deps and A_.entails(ZERO, f"len({v})", -1))]
+                    if not okv:
+                        return False, f"after `{norm(call)[:40]}` the loop can read again without having left on an empty read (result held by {holders or 'nothing'})"
+                    why = f"`{norm(call)}` (reviewed: each iteration reads from the request stream, which is finite (C09 bounds it); the loop is left when the read is empty: the next read is reached only with `{okv[0]}` non-empty)"
+                else:
+                    keys = [k for k in (_not_need_data(an, f, A_, v) for v in holders) if k]
+                    if not keys:
+                        return False, f"after `{norm(call)[:40]}` the loop can ask for the next event without having left on NEED_DATA (event held by {holders or 'nothing'})"
+                    okp, whyp = _next_event_premise(an)
+                    if not okp:
+                        return False, f"`{norm(call)[:40]}`: {whyp}"
+                    why = f"`{norm(call)}` (reviewed: every event other than NEED_DATA comes with a buffer deletion or a state change, so a bounded buffer yields finitely many events; the next event is asked for only after `{keys[0]}` was false) [{whyp}]"
+            if why:
+                reviewed.append(why)
+        if not ncyc:
+            return True, "loop body always leaves the loop"
+        return True, f"every iteration ({ncyc} path(s) back to the head) makes progress: {facts}" + (f"; {reviewed}" if reviewed else "")
+    finally:
+        sim.call_tag = None
 
 
 def _next_event_premise(an: A) -> tuple[bool, str]:
@@ -472,32 +422,6 @@ def _next_event_premise(an: A) -> tuple[bool, str]:
     return ok, "event construction accompanied by a buffer deletion / state change on every path: " + ", ".join(facts)
 
 
-def _stream_read_progress(an: A, f: FuncInfo, w: ast.While, head, body_ids, node, call: ast.Call) -> str | None:
-    """the loop that reads chunks from the request stream and leaves on an empty read."""
-    flow = an.flow
-    fn = call.func
-    is_read = (isinstance(fn, ast.Attribute) and fn.attr == "read") or (isinstance(fn, ast.Name) and fn.id in f.params and _bound_to_read(an, f, fn.id))
-    if not is_read:
-        return None
-    cfg = cfg_of(f)
-    for tn in cfg.nodes:
-        if tn.kind != "test" or id(tn.ast) not in body_ids:
-            continue
-        t_ = tn.ast
-        nm = t_.target.id if isinstance(t_, ast.NamedExpr) else t_.id if isinstance(t_, ast.Name) else None
-        if nm is None or not _leaves_loop(cfg, tn, "F", body_ids):
-            continue
-        if isinstance(t_, ast.NamedExpr):
-            fresh = t_.value is call
-        else:
-            defs = flow.rd(f).reaching(tn, nm)
-            fresh = bool(defs) and all(d.kind in ("assign", "walrus") and d.value is call for d in defs)
-        if not fresh or not _every_cycle_passes(cfg, node, tn, head, body_ids):
-            continue
-        return f"`{norm(call)}` (reviewed: each iteration reads from the request stream, which is finite (C09 bounds it); the loop leaves when the read is empty: `{norm(t_)}` false)"
-    return None
-
-
 def _bound_to_read(an: A, f: FuncInfo, pname: str) -> bool:
     """a callable parameter that every call site on the request path binds to <stream>.read."""
     cal = an.flow.callers(f)
@@ -510,44 +434,59 @@ def _bound_to_read(an: A, f: FuncInfo, pname: str) -> bool:
     return True
 
 
-def _slice_of(v: ast.AST):
-    """x[a:] possibly wrapped in .lstrip()/.strip()/.rstrip() (which only remove more)."""
-    while isinstance(v, ast.Call) and isinstance(v.func, ast.Attribute) and v.func.attr in ("lstrip", "strip", "rstrip") :
-        v = v.func.value
-    if isinstance(v, ast.Subscript) and isinstance(v.slice, ast.Slice):
-        return v
-    return None
-
-
 # ---------------------------------------------------------------------
 # R7.3
 
 
-def _r73(ctx: Ctx, registered: set[str]) -> None:
+def _conversion_calls(f: FuncInfo, kind: str, name: str) -> list[ast.Call]:
+    """the calls of the converter: `self.<name>(...)` / `<parameter name>(...)`, directly or through a local alias."""
+    sn = f.params[0] if f.params else "self"
+
+    def is_src(e: ast.AST | None) -> bool:
+        if kind == "attr":
+            return e is not None and astq.is_self_attr(e, name, sn)
+        return isinstance(e, ast.Name) and e.id == name and name in f.params and not astq.assigns_to(f.node, name)
+
+    out = []
+    for c in astq.calls(f.node, nested=False):
+        fn = c.func
+        if is_src(fn):
+            out.append(c)
+        elif isinstance(fn, ast.Name) and not (kind == "param" and fn.id == name):
+            vals = [v for _, v in astq.assigns_to(f.node, fn.id)]
+            if vals and all(is_src(v) for v in vals):
+                out.append(c)
+    return out
+
+
+def _r73(ctx: Ctx, eff: Effects, folder: Folder, registered: set[str]) -> None:
     repo = ctx.repo
-    for fq, call_text in (("_internal._DictAccessorProperty.__get__", "self.load_func"), ("datastructures.structures.TypeConversionDict.get", "type")):
+    for fq, kind, name in (("_internal._DictAccessorProperty.__get__", "attr", "load_func"), ("datastructures.structures.TypeConversionDict.get", "param", "type")):
         f = repo.func(fq)
-        ok = False
-        for c in astq.calls(f.node):
-            if norm(c.func) == call_text:
-                tr = astq.enclosing(c, (ast.Try,))
-                if isinstance(tr, ast.Try):
-                    names = set()
-                    for h in tr.handlers:
-                        for e in (h.type.elts if isinstance(h.type, ast.Tuple) else [h.type]) if h.type is not None else []:
-                            names.add(dotted(e))
-                    ok = {"ValueError", "TypeError"} <= names or "Exception" in names
-        ctx.ob("R7.3", f"{f.qualname} falls back on (ValueError, TypeError) from the conversion", ok, f"handler around `{call_text}(...)`", f, f.node, f"{fq} conversion fallback")
+        cs = _conversion_calls(f, kind, name)
+        if not cs:
+            raise AnalysisError(f"C07 R7.3: no call of the converter `{name}` found in {f.qualname}")
+        leaks = [f"{norm(c)[:40]} lets {x} escape" for c in cs for x in ("ValueError", "TypeError") if eff.uncaught(f, c, x)]
+        ctx.ob("R7.3", f"{f.qualname} falls back on (ValueError, TypeError) from the conversion", not leaks, f"{len(cs)} call(s) of the converter `{name}`, each inside handler(s) that catch ValueError and TypeError without re-raising" if not leaks else "; ".join(leaks), f, f.node, f"{fq} conversion fallback")
     nq = 0
     for fq in ("sansio.request.Request.args", "formparser.FormDataParser._parse_urlencoded"):
         f = repo.func(fq)
         for c in astq.name_calls(f.node, "parse_qsl"):
             nq += 1
-            e = astq.kwarg(c, "errors")
-            ok = e is not None and astq.const_str(e) in registered
+            e = astq.arg_or_kw(c, 4, "errors")
+            val = astq.const_str(e) if e is not None else None
+            if val is None and e is not None and dotted(e):
+                try:
+                    v = folder.name(f.module, dotted(e))
+                    val = v if isinstance(v, str) else None
+                except Exception:
+                    val = None
+            ok = val is not None and val in registered
             ctx.ob("R7.3", f"{f.qualname}: parse_qsl decodes with a registered lenient handler", ok, f"errors={norm(e) if e is not None else None}; registered handlers: {sorted(registered)}", f, c, f"{fq} parse_qsl errors")
     ctx.floor("R7.3", "parse_qsl calls", nq, 2)
     dd = repo.func("_internal._wsgi_decoding_dance")
-    decs = [c for c in astq.method_calls(dd.node, "decode")]
-    ok = bool(decs) and all(astq.const_str(astq.arg_or_kw(c, 1, "errors") or ast.Constant(None)) == "replace" for c in decs)
-    ctx.ob("R7.3", "_wsgi_decoding_dance decodes with errors='replace'", ok, f"{[norm(c) for c in decs]}", dd, dd.node, "decoding dance lenient")
+    decs = [cc for cc in (codec_call(c) for c in astq.calls(dd.node)) if cc is not None and cc[0] == "decode"]
+    if not decs:
+        raise AnalysisError("C07 R7.3: no decoding operation found in _wsgi_decoding_dance")
+    ok = all(cc[3] in eff.handlers_ok - {"ignore"} or cc[2] in ("latin1", "latin-1", "iso-8859-1") for cc in decs)
+    ctx.ob("R7.3", "_wsgi_decoding_dance decodes with errors='replace'", ok, f"{[(norm(cc[1])[:40], cc[2], cc[3]) for cc in decs]}", dd, dd.node, "decoding dance lenient")
